@@ -55,6 +55,11 @@ COMPOSED = [
     {"k": "scale", "base": {"k": "linear", "active_dims": [2, 0, 1], "ard": True}, "needs_d": 4},
     {"k": "prod", "parts": [{"k": "matern", "nu": 1.5, "active_dims": [3, 1], "ard": True}, {"k": "periodic", "active_dims": [0, 2], "ard": True}], "needs_d": 4},
     {"k": "shared_instance_sum"}, {"k": "shared_instance_prod"},
+    # operator nestings: a sum as the right / left operand of *, a product as an operand of +, sums of sums
+    {"k": "prod", "parts": [{"k": "rbf"}, {"k": "sum", "parts": [{"k": "matern", "nu": 1.5}, {"k": "linear"}]}]},
+    {"k": "prod", "parts": [{"k": "sum", "parts": [{"k": "matern", "nu": 2.5}, {"k": "scale", "base": {"k": "rq"}}]}, {"k": "periodic"}]},
+    {"k": "sum", "parts": [{"k": "rbf"}, {"k": "sum", "parts": [{"k": "linear"}, {"k": "prod", "parts": [{"k": "matern", "nu": 0.5}, {"k": "sum", "parts": [{"k": "rq"}, {"k": "constant"}]}]}]}]},
+    {"k": "prod", "parts": [{"k": "scale", "base": {"k": "rbf"}}, {"k": "prod", "parts": [{"k": "periodic"}, {"k": "sum", "parts": [{"k": "linear"}, {"k": "rbf"}]}]}]},
     {"k": "additive_structure", "base": {"k": "rbf"}},
     {"k": "additive_structure", "base": {"k": "scale", "base": {"k": "matern", "nu": 1.5}}},
     {"k": "product_structure", "base": {"k": "rbf"}},
@@ -111,6 +116,11 @@ def cases(tier, seed):
                     "kernel": spec, "d": rnd.choice([1, 2, 3]), "n1": npat[0], "n2": npat[1], "rel": npat[2], "pbatch": pb, "xbatch": xb,
                     "path": rnd.choice(PATHS), "regime": "faraway", "offset": rnd.choice([1e3, 3e4, 1e5]), "seed": rnd.randrange(10**6),
                 }
+    # one-hot sequences longer than 256 symbols stored in narrow dtypes (uint8 / bool / int8): distances beyond the dtype's range
+    for rep in range(1 if tier == "quick" else 6):
+        for dt_ in ("uint8", "bool", "int8", "int64", "float32"):
+            yield {"kernel": {"k": "hamming"}, "d": rnd.choice([300, 520]), "n1": 3, "n2": 2, "rel": rnd.choice(["diff", "same"]), "pbatch": [], "xbatch": [], "path": "nograd", "regime": "random",
+                   "onehot_dtype": dt_, "seed": rnd.randrange(10**6)}
     ng = 2 if tier == "quick" else 25
     for rep in range(ng):
         for gk in GRADK:
@@ -260,8 +270,12 @@ def _run_case(case, ctx):
     if spec["k"] == "hamming":
         c1 = torch.randint(0, 4, (*xb, n1, d), generator=g)
         c2 = torch.randint(0, 4, (*xb, n2, d), generator=g)
-        x1 = torch.nn.functional.one_hot(c1, 4).reshape(*xb, n1, -1).double()
-        x2 = torch.nn.functional.one_hot(c2, 4).reshape(*xb, n2, -1).double()
+        if case.get("onehot_dtype"):
+            # far-apart sequences: (almost) every position differs
+            c2 = (c1[..., :1, :].expand(*xb, n2, d) + 1 + torch.randint(0, 3, (*xb, n2, d), generator=g)) % 4 if n2 <= n1 else c2
+        odt = {"uint8": torch.uint8, "bool": torch.bool, "int8": torch.int8, "int64": torch.int64, "float32": torch.float32}.get(case.get("onehot_dtype"), torch.float64)
+        x1 = torch.nn.functional.one_hot(c1, 4).reshape(*xb, n1, -1).to(odt)
+        x2 = torch.nn.functional.one_hot(c2, 4).reshape(*xb, n2, -1).to(odt)
     elif spec["k"] == "cylindrical":
         # documented domain: the unit ball
         def ball(n):
